@@ -108,8 +108,42 @@ fn mojibake(rng: &mut Rng) -> String {
     t.to_string()
 }
 
+/// exhaustive: `is_suspiciously_successive_range` / `is_unicode_range_secondary` on every (pair of) row(s)
+/// of the block table against `Model/RangeRules.lean`
+pub fn run_range_rules_t3(rep: &mut Report, drv: &mut Driver) {
+    let ranges = vh::unicode_ranges();
+    let mut ids: Vec<Option<&'static str>> = vec![None];
+    ids.extend(ranges.iter().map(|(n, _, _)| Some(*n)));
+    let mut real = String::with_capacity(ids.len() * ids.len());
+    for a in &ids {
+        for b in &ids {
+            real.push(if vh::is_suspiciously_successive_range(*a, *b) { '1' } else { '0' });
+        }
+    }
+    let model = drv.ask("suspall");
+    rep.evaluations += 1;
+    rep.t3_compared += (ids.len() * ids.len()) as u64;
+    rep.count_n("md:range-pair-exhaustive", (ids.len() * ids.len()) as u64);
+    if model != format!("ok {}", real) {
+        let m = model.strip_prefix("ok ").unwrap_or("");
+        let pos = real.chars().zip(m.chars()).position(|(x, y)| x != y);
+        let detail = match pos {
+            Some(p) => format!("first difference at pair ({:?}, {:?})", ids[p / ids.len()], ids[p % ids.len()]),
+            None => format!("lengths differ: {} vs {}", real.len(), m.len()),
+        };
+        rep.fail("t3", "C04:range-rules-model-disagrees", &detail, b"", None, "suspall");
+    }
+    let real2: String = ranges.iter().map(|(n, _, _)| if vh::is_unicode_range_secondary(n) { '1' } else { '0' }).collect();
+    let model2 = drv.ask("secondaryall");
+    rep.t3_compared += ranges.len() as u64;
+    if model2 != format!("ok {}", real2) {
+        rep.fail("t3", "C04:range-secondary-model-disagrees", "is_unicode_range_secondary differs on some row", b"", None, "secondaryall");
+    }
+}
+
 /// `n` texts: model vs implementation
 pub fn run_mess_t3(rep: &mut Report, drv: &mut Driver, rng: &mut Rng, n: usize) {
+    run_range_rules_t3(rep, drv);
     for i in 0..n {
         let text = match i % 4 {
             0 => mojibake(rng),
